@@ -130,6 +130,11 @@ def add(a, b):
             return r
     if a[0] == "str" and b[0] == "str":
         return ("str", a[1] + b[1])
+    # a constant added to a choice one of whose arms is a constant goes into both arms: (m if c else 0) + 1 == (m + 1 if c else 1)
+    if a[0] == "num" and b[0] == "phi" and (b[2][0] == "num" or b[3][0] == "num"):
+        return phi(b[1], add(a, b[2]), add(a, b[3]))
+    if b[0] == "num" and a[0] == "phi" and (a[2][0] == "num" or a[3][0] == "num"):
+        return phi(a[1], add(a[2], b), add(a[3], b))
     pa, pb = _as_poly(a), _as_poly(b)
     for m, c in pb.items():
         pa[m] = pa.get(m, Fraction(0)) + c
@@ -340,6 +345,13 @@ def cmp(op, a, b):
         op = "Lt" if op == "Gt" else "LtE"
     # constant folding
     CONSTK = ("num", "str", "none", "bool")
+    # a choice between two constants compared with a constant is the choice's condition (or its negation): (0 if c else 1) == 0  is  c
+    for x, y, flip in ((a, b, False), (b, a, True)):
+        if x[0] == "phi" and x[2][0] in CONSTK and x[3][0] in CONSTK and y[0] in CONSTK:
+            l = cmp(op, *((y, x[2]) if flip else (x[2], y)))
+            r = cmp(op, *((y, x[3]) if flip else (x[3], y)))
+            if l[0] == "bool" and r[0] == "bool":
+                return phi(x[1], l, r)
     if a[0] in CONSTK and b[0] in CONSTK and op in ("Eq", "NotEq", "Is", "IsNot") and not (a[0] == "num" and b[0] == "num"):
         same = a == b
         return ("bool", same if op in ("Eq", "Is") else not same)
